@@ -77,6 +77,10 @@ class PastSem:
             x = xs[0]
             if op == '~':
                 return z3.Not(self.ev(x, i))
+            if op == 'X':        # next (also written as a postfix prime): needs position i + 1
+                if i + 1 >= len(next(iter(self.v.values()))):
+                    raise IndexError('next beyond the end of the finite trace')
+                return self.ev(x, i + 1)
             if op == '-X':       # weak previous: true at position 0
                 return z3.BoolVal(True) if i == 0 else self.ev(x, i - 1)
             if op == '--X':      # strong previous: false at position 0
